@@ -21,7 +21,12 @@ EXPLANATION = (
     "2i+1, output iff an odd count; (SINGLE) the single-operand fast paths are guarded by "
     "term == output / equal lengths and transpose in the right direction; (CANON) one renaming "
     "map for inputs, output, size_dict keys and edge paths; (NCON) negative labels are the "
-    "outputs, in the order -1, -2, ..."
+    "outputs, in the order -1, -2, ... "
+    "Later rounds added: "
+    "(INTERLEAVED) decided for the loop form and the strided-slice form; the output "
+    "branch is taken exactly for an odd argument count, never by truth value of the "
+    "sublist; (CANON implicit-output) the label interface uses the order-of-appearance "
+    "routine. "
 )
 ASSUMPTIONS = ("numpy right-aligns the dimensions an ellipsis stands for and puts them first in an "
                "implicit output",)
